@@ -3,6 +3,10 @@
 // boundaries inside the text; it never returns ParseError::User; a recovered item-level error (Ok(None)) has pushed an
 // Error (the recovery actions call Diagnostic::from_error_recovery, proved in unit v_diag); the trees it builds respect
 // the grammar's arities (Type constructors).
+// Two of these clauses are the composition of facts PROVED per action in unit v_grammar (class G): each recovery action
+// returns Ok(None) after pushing one Error, and each Type action builds a node with the arity of its kind while every
+// other action stores the types it is given unchanged; what stays assumed is that the parser is the bottom-up
+// composition of its actions.
 pub uninterp spec fn spec_parse_ok(c: Seq<char>) -> bool;
 pub uninterp spec fn spec_parse_tree(c: Seq<char>) -> Option<ast::Aidl>;
 pub uninterp spec fn spec_parse_diags(c: Seq<char>) -> Seq<Diagnostic>;
